@@ -13,6 +13,7 @@ import Driver.C07
 import Driver.Provider
 import Driver.C12
 import Driver.C14
+import Driver.C17
 open Lean Driver
 
 def handlers : List (String × Handler) := [
@@ -31,6 +32,7 @@ def handlers : List (String × Handler) := [
   ("C09", Driver.Provider.handle),
   ("C12", Driver.C12.handle),
   ("C14", Driver.C14.handle),
+  ("C17", Driver.C17.handle),
   ("C19", fun j => match getStr j "world" with
     | .ok "oauth1" => Driver.C12.handle j
     | _ => Driver.Provider.handle j)
